@@ -302,7 +302,11 @@ pub fn link_cores(cores: Vec<CoreUnit>) -> Result<LinkOutput, CompilationError> 
         ));
     }
 
-    for (pkg, unit) in by_name.iter() {
+    // Check packages in name order: `by_name` is a HashMap and the first inconsistency
+    // found is the one reported.
+    let mut checked: Vec<(&String, &CoreUnit)> = by_name.iter().collect();
+    checked.sort_by(|a, b| a.0.cmp(b.0));
+    for (pkg, unit) in checked {
         for (dep, expected_hash) in unit.deps.iter() {
             let Some(dep_unit) = by_name.get(dep) else {
                 return Err(compile_error(format!(
